@@ -93,6 +93,14 @@ async def consume_a(b, plan, close):
     b.outs = outs
     done = [False] * len(outs)
     for o in plan:
+        if isinstance(o, list):  # ["close", child]: close one output early, its siblings continue
+            if o[1] < len(outs) and not done[o[1]]:
+                closer = getattr(outs[o[1]], "aclose", None)
+                if closer is not None:
+                    await closer()
+                done[o[1]] = True
+                ctx.ev("closed", o[1])
+            continue
         if o >= len(outs) or done[o]:
             continue
         try:
@@ -135,6 +143,12 @@ def consume_s(b, plan):
     b.outs = outs
     done = [False] * len(outs)
     for o in plan:
+        if isinstance(o, list):  # the stdlib counterpart of closing a child is dropping it
+            if o[1] < len(outs) and not done[o[1]]:
+                outs[o[1]] = None
+                done[o[1]] = True
+                ctx.ev("closed", o[1])
+            continue
         if o >= len(outs) or done[o]:
             continue
         try:
@@ -195,7 +209,7 @@ def run_sync(desc):
     return b
 
 
-CONSUMER_EVENTS = ("yield", "stop", "raise", "return")
+CONSUMER_EVENTS = ("yield", "stop", "raise", "return", "closed")
 IGNORED_FOR_TRACE = ("close", "close-raise") if __import__("os").environ.get("VF_STRICT_REPULL") else ("repull", "close", "close-raise")
 
 
